@@ -180,6 +180,12 @@ def check_case(case, ctx=None, only_points=None):
             try:
                 if use_mp:
                     out = X.run_subprocess(spec, cfg, wd, result_file=path, side=side)
+                    if out["status"] == "timeout":
+                        # a watchdog firing decides nothing; one more attempt from the same starting point with a long deadline
+                        note("resume.multiproc-watchdog-retry")
+                        with open(path, "wb") as f: f.write(blob[:n])
+                        if os.path.exists(side): os.remove(side)
+                        out = X.run_subprocess(spec, cfg, wd, result_file=path, side=side, timeout=900)
                     if out["status"] == "raised": raise RuntimeError(out["error"])
                     if out["status"] != "ok":
                         if ctx is not None: ctx.note_inconclusive(f"resume-subprocess-{out['status']}")
